@@ -166,7 +166,8 @@ ArgFmt(w) ==
   ELSE LET r == FmtParse(w) IN
        IF r.st = "ok" THEN ArgOk([f |-> r.els])
        ELSE IF r.st = "unspec" THEN ArgUnspec
-       ELSE ArgRej(FALSE)
+       \* invalid from its first character: the format opens with a '%' that no documented directive follows
+       ELSE ArgRej(w[1] = cPCT /\ FmtDirective(w, 2).st = "rej")
 
 \* dispatcher on the argument-language id used by the vocabulary table
 ArgParse(lang, w) ==
